@@ -130,6 +130,15 @@ func runC01(c any, x *kit.Ctx) {
 	}
 	stored := m.RefBlocks()
 	wantPayload := refcar.EncodeV1(rootRaws, nilRoots, stored)
+	// A nil root list has two legal encodings (CBOR null, which go-car writes today, and the
+	// empty array); the statement fixes neither. The first writer whose payload equals one of
+	// the two references selects it for the rest of the case, so that all writers (and the
+	// payload readers) are still held to one byte-identical payload.
+	var altPayload []byte
+	if nilRoots {
+		altPayload = refcar.EncodeV1(rootRaws, false, stored)
+	}
+	refChosen := false
 	wantV := 2
 	if cs.Opts.V1 {
 		wantV = 1
@@ -175,7 +184,10 @@ func runC01(c any, x *kit.Ctx) {
 			if rx != nil {
 				res = &rx.WriteResult
 				if len(rx.Readback) > 0 {
-					x.Fail("c01:readback:"+w, "writer %s: reads between puts: %v", w, rx.Readback)
+					// what a store answers while it is being written is not part of the
+					// statement (the produced archive is); the call pattern stays, its effect on
+					// the produced file is judged below like that of every other writer
+					x.Outcome("beyond-statement:readback:" + w)
 				}
 			}
 		} else {
@@ -203,6 +215,13 @@ func runC01(c any, x *kit.Ctx) {
 			x.Fail("c01:strict-decode:"+w, "writer %s output not well-formed: %v", w, err)
 			continue
 		}
+		if !refChosen && altPayload != nil && bytes.Equal(f.PayloadRaw, altPayload) {
+			wantPayload, refChosen = altPayload, true
+			x.Outcome("beyond-statement:nil-roots-written-as-empty-array")
+		}
+		if bytes.Equal(f.PayloadRaw, wantPayload) {
+			refChosen = true
+		}
 		if !bytes.Equal(f.PayloadRaw, wantPayload) {
 			x.Fail("c01:payload:"+w, "writer %s payload differs from reference encoding of the logical content: got %x want %x", w, clip(f.PayloadRaw), clip(wantPayload))
 			continue
@@ -216,7 +235,12 @@ func runC01(c any, x *kit.Ctx) {
 				x.Fail("c01:layout:data-offset:"+w, "writer %s: data offset %d want %d (data padding %d)", w, f.V2.DataOffset, want, cs.Opts.DataPad)
 			}
 			if !f.HasIndex {
-				x.Fail("c01:layout:no-index:"+w, "writer %s: no index written", w)
+				if len(stored) > 0 {
+					x.Fail("c01:layout:no-index:"+w, "writer %s: no index written", w)
+				} else {
+					// nothing to index: leaving the index out is a legal CARv2
+					x.Outcome("beyond-statement:layout:no-index-for-empty-payload")
+				}
 			} else {
 				if want := f.V2.DataOffset + f.V2.DataSize + cs.Opts.IndexPad; f.V2.IndexOffset != want {
 					x.Fail("c01:layout:index-offset:"+w, "writer %s: index offset %d want %d (index padding %d)", w, f.V2.IndexOffset, want, cs.Opts.IndexPad)
@@ -233,7 +257,10 @@ func runC01(c any, x *kit.Ctx) {
 		}
 	}
 	if len(files) > 1 {
-		x.Fail("c01:writers-differ", "writers produced %d distinct files for the same content and options (first of each: %v)", len(files), order)
+		// The statement demands a byte-identical CARv1 payload, which c01:payload:<writer> has
+		// enforced above against one reference; the bytes around it (characteristics, index
+		// record order among equal keys, ...) may differ. Every distinct file is read below.
+		x.Outcome(fmt.Sprintf("beyond-statement:writers-differ:%d-files", len(files)))
 	}
 	// (2) every reader returns the same roots and sequence
 	path := filepath.Join(x.Dir, "c01-in.car")
@@ -293,15 +320,23 @@ func c01ReadAll(x *kit.Ctx, cs C01Case, tag string, plan c01Plan, o drv.Opts, pa
 		x.Eval(1)
 		x.Transition(len(stored) + 1)
 		if c01Refuses(rk0) && len(rootRaws) == 0 {
-			// documented refusal: the legacy readers reject an empty root list
+			// documented refusal: the legacy readers reject an empty root list. The refusal is
+			// recognised by its shape (the constructor fails), not by its text; a reader that
+			// does not refuse is held to the statement like every other.
 			e := r.OpenErr
 			if e == nil {
 				e = r.Err
 			}
-			if !drv.IsEmptyRootsRefusal(e) {
-				x.Fail("c01:empty-roots-refusal:"+rk, "reader %s on an archive without roots: expected the documented refusal, got open=%v err=%v blocks=%d", rk, r.OpenErr, r.Err, len(r.Blocks))
+			if e != nil {
+				// a refusal comes from the constructor; the loaders construct their reader
+				// themselves, there it is an error before the first block reached the store
+				loader := strings.Contains(rk0, "-load")
+				if r.OpenErr == nil && !(loader && len(r.Blocks) == 0) {
+					x.Fail("c01:empty-roots-refusal:"+rk, "reader %s on an archive without roots: fails, but not by refusing it at construction: err=%v (after %d blocks)", rk, r.Err, len(r.Blocks))
+				}
+				continue
 			}
-			continue
+			x.Outcome("beyond-statement:empty-roots-not-refused:" + rk)
 		}
 		if r.OpenErr != nil || r.Err != nil {
 			x.Fail("c01:reader-error:"+rk, "reader %s fails on a valid archive: open=%v err=%v (after %d blocks)", rk, r.OpenErr, r.Err, len(r.Blocks))
@@ -560,13 +595,14 @@ func init() {
 		Rule: "every (root list, block sequence up to the bound, de-dup/identity options, container) is written by every applicable writer " +
 			"(blockstore Put, one PutMany, two PutMany halves, Put+PutMany+Put, Put with Has/Get/GetSize of the blocks put so far after every Put; storage ReadableWritable (plain and with Has/Get after every Put), " +
 			"Writable on a file (plain and with the caller's data buffer overwritten after every Put), Writable on a stream; deferred path/stream; root-module WriteHeader+LdWrite); " +
-			"every output is strictly decoded by the reference codec (payload byte-identical to the reference encoding, version, data offset = 51+padding, index offset = end of payload+padding, requested index codec), all outputs must be byte-identical, " +
+			"every output is strictly decoded by the reference codec (payload byte-identical to the reference encoding, for a nil root list to either of its two encodings, CBOR null or empty array, the first writer selecting it for all; version, data offset = 51+padding, an index whenever a block was stored, index offset = end of payload+padding, requested index codec); " +
+			"outputs that differ outside the payload, discrepancies of the reads between puts and an index left out of an archive without blocks are recorded as beyond-statement outcomes, not violations; " +
 			"and each distinct output is read by the core matrix (lvl>=0: the readers named first in each group) and the base matrix (lvl>=1): BlockReader.Next over {bytes.Reader, plain stream, *os.File, one-byte reads, half reads, data-with-EOF}, SkipNext over {bytes.Reader, plain stream, *os.File, one-byte reads}, SkipNext/Next alternating, " +
 			"Reader.Roots (twice) + DataReader (sequential, and ReadAt + Seek(0) + one-byte reads), root CarReader (strict, lenient, one-byte reads, data-with-EOF; one reader drained and called again, then two opened together and advanced in lockstep), root LoadCar (Put store, PutMany store), " +
 			"internal carv1 reader (stream, one-byte, half reads) and loader (Put store, PutMany store), NewReadOnly over {bytes.Reader, ReaderAt-only, *os.File} and OpenReadOnly (mmap), OpenReadable over {bytes.Reader, ReaderAt-only, *os.File}; " +
 			"checked per reader: roots, (CID, bytes) sequence, SkipNext sizes, BlockReader.Version, two further calls after the end (io.EOF for BlockReader via both methods, no block for the others), key listing, Has/Get/GetSize of every stored block. " +
 			"Cases with lvl=2 add the extended matrix (pipe sources, remaining source x family combinations incl. loaders over short reads, NewReader over ReaderAt-only, OpenReader) and a re-read under ZeroLengthSectionAsEOF+WithTrustedCAR. " +
-			"The legacy readers get the payload window computed by the reference codec, not by go-car. Root HeaderSize/LdSize are compared with the bytes written. " +
+			"The legacy readers get the payload window computed by the reference codec, not by go-car; on an archive without roots those that document the refusal may refuse it (constructor error, for the loaders an error before the first block; the text is not matched), one that does not refuse is compared like every other reader. Root HeaderSize/LdSize are compared with the bytes written. " +
 			"non-trivial = >=2 stored blocks or de-duplication fired",
 		Bound: func(tier string) map[string]any {
 			b := map[string]any{
@@ -602,7 +638,7 @@ func init() {
 			"the reads between puts after the eighth put are limited to the first, the previous and the current block",
 			"io.Reader sources obey the io.Reader contract (short reads and data-with-EOF are enumerated, zero-byte reads without error are not)",
 			"the root-module traversal writer WriteCar is C15's subject; here the root-module writer is WriteHeader + util.LdWrite",
-			"block positions reported by SkipNext (Offset, SourceOffset) are C14's subject; the legacy readers' refusal of an archive without roots is recognised by its message",
+			"block positions reported by SkipNext (Offset, SourceOffset) are C14's subject; the legacy readers' refusal of an archive without roots is optional and recognised by where it happens (construction), not by its message",
 		},
 	})
 }
